@@ -101,6 +101,15 @@ def build(repo):
                ensures=['result[0] == EX(G.ent) and result[1] == ER(G.ent) and result[2] == EO(G.ent) and result[4] == ENS(G.ent) and result[5] == EEN(G.ent)',
                         'isnone(result[3]) or (result[3] == EJ(G.entjac) and result[6] == EJN(G.entjac))'],
                notes='proved on the real body in domain M: the seven values are one whole record (incumbent or saved slot) with its own Jacobian pair')
+    # diagnostic table: call order (the methods themselves are proved in the table bundle)
+    D.contract('DiagnosticInfo.__init__', tags=['C18'], modifies=['self.*', 'G.rows'], ensures=['G.rows == 0'], assumed=True,
+               notes='proved in the table bundle: a new table has the documented columns, all empty')
+    D.contract('DiagnosticInfo.save_info_from_control', tags=['C18'], modifies=['G.rows'], requires=['G.rows >= 0'],
+               ensures=['G.rows == old(G.rows) + 1'], assumed=True, notes='proved in the table bundle: exactly one row is added to every column')
+    for q in ('update_interpolation_information', 'update_ratio', 'update_iter_type', 'update_slow_iter'):
+        D.contract('DiagnosticInfo.' + q, tags=['C18'], modifies=[],
+                   requires=[('a row exists (save_info_from_control ran earlier on every path to this call):: G.rows >= 1', 'C18')], ensures=[], assumed=True,
+                   notes='proved in the table bundle: writes the last row only')
     D.contract('Model.shift_base', tags=['C03'], modifies=['G.gen'], ghost_return=[('G.gen', 'G.gen + 1')],
                ensures=['G.gen == old(G.gen) + 1'], assumed=True,
                notes='ghost-defining: a base shift starts a new base generation (absolute points are unchanged: proved in domain M)')
@@ -145,6 +154,7 @@ def build(repo):
     method('Controller.move_furthest_points', 'optexit', 'result')
     method('Controller.move_furthest_points_momentum', 'optexit', 'result')
     method('Controller.soft_restart', 'optexit', 'result', params={'nruns_so_far': 'int', 'x_in_abs_coords_to_save': 'opt:val'},
+           msg_asserts={MAXRESTART_MSG: [('(f) a success flag is attached only to a finite objective:: G.objfinite', 'C10')]},
            extra_req=['nruns_so_far >= 0', 'no caller passes an extra point to save:: isnone(x_in_abs_coords_to_save)'],
            extra_mod=['G.restarts', 'self.last_successful_run'],
            ghost_return=[('G.restarts', 'G.restarts + (1 if isnone(result) else 0)')],
@@ -165,19 +175,19 @@ def build(repo):
                        'r0_avg_old': 'opt:val', 'objfun': 'cb:objfun', 'nsamples': 'cb:nsamples', 'h': 'opt:cb:h', 'x0': 'val',
                        'r0_nsamples_old': 'opt:int'},
                requires=['G.calls == nf_so_far', 'G.pts == nx_so_far', '0 <= nx_so_far', 'nx_so_far <= nf_so_far',
-                         'nf_so_far <= maxfun', 'maxfun == G.maxfun', 'not G.pending', 'nruns_so_far >= 0', 'G.offered == G.lastk',
+                         'nf_so_far <= maxfun', 'maxfun == G.maxfun', 'not G.pending', 'nruns_so_far >= 0', 'G.offered == G.lastk', 'G.rows >= 0',
                          'fresh evaluation needs budget:: implies(isnone(r0_avg_old), nf_so_far < maxfun)',
                          'implies(params("init.run_in_parallel"), params("init.random_initial_directions"))'],
                modifies=['G.calls', 'G.pts', 'G.pending', 'G.nanflag', 'G.restarts', 'G.lastx', 'G.lastvals', 'G.lastk', 'G.offered', 'G.proj',
-                         'G.ent', 'G.entjac'] + MODEL_GHOSTS + [
+                         'G.ent', 'G.entjac', 'G.rows'] + MODEL_GHOSTS + [
                          'params[growing.full_rank.use_full_rank_interp]', 'params[growing.perturb_trust_region_step]',
                          'params[growing.delta_scale_new_dirns]'],
                result=('val', 'val', 'val', 'opt:val', 'int', 'int', 'int', 'int', 'exit', 'unk', 'int', 'opt:val'),
                ledger_inv=['INV_ledger(control)', 'no point left pending:: not G.pending',
                            ('every stored point has all its samples:: G.offered == G.lastk', 'C02', 'C03', 'C17'),
-                           'run accounting:: nruns_so_far == old(nruns_so_far) + G.restarts - old(G.restarts)',
+                           ('run accounting:: nruns_so_far == old(nruns_so_far) + G.restarts - old(G.restarts)', 'C02', 'C04', 'C08', 'C10', 'C18'),
                            'control.maxfun == maxfun', 'nruns_so_far >= 0', 'G.calls >= old(G.calls)',
-                           'G.restarts >= old(G.restarts)'],
+                           'G.restarts >= old(G.restarts)', 'G.rows >= 0'],
                loops={'for:i#0': ['!nodefault:: True',
                           'nf == nf_so_far + i_', 'num_samples_run == i_', 'G.calls == nf', 'nf <= maxfun',
                           'nx == nx_so_far + 1', 'G.pts == nx', 'isnone(exit_info)',
@@ -187,7 +197,7 @@ def build(repo):
                         'break@while#0': [
                    ('trial point offered or NaN:: not G.pending or G.nanflag', 'C04', 'C08'),
                    ('a run that ends on a NaN evaluation is flagged as an evaluation error:: implies(G.pending, exit_info.flag == EXIT_EVAL_ERROR)', 'C08'),
-                   ('run accounting:: nruns_so_far == old(nruns_so_far) + G.restarts - old(G.restarts) + 1', 'C10'),
+                   ('run accounting:: nruns_so_far == old(nruns_so_far) + G.restarts - old(G.restarts) + 1', 'C10', 'C18'),
                    ('exit reason set:: not isnone(exit_info)', 'C07', 'C10'),
                    ('exit flag is a run-time flag:: flag_ok(exit_info)', 'C07', 'C10'),
                    ('MAXFUN => nf == maxfun:: implies(exit_info.flag == EXIT_MAXFUN_WARNING, control.nf == control.maxfun)', 'C10'),
@@ -203,7 +213,7 @@ def build(repo):
                         '0 <= result[6] and result[6] <= result[5]',
                         'calls only grow:: G.calls >= old(G.calls)',
                         'run accounting:: result[7] == old(nruns_so_far) + G.restarts - old(G.restarts) + 1',
-                        'not G.pending', 'result[7] >= old(nruns_so_far) + 1', 'G.restarts >= old(G.restarts)', 'G.offered == G.lastk',
+                        'not G.pending', 'result[7] >= old(nruns_so_far) + 1', 'G.restarts >= old(G.restarts)', 'G.offered == G.lastk', 'G.rows >= 0',
                         ('exit flag is a run-time flag:: flag_ok(result[8])', 'C07', 'C10'),
                         ('MAXFUN => nf == maxfun:: implies(result[8].flag == EXIT_MAXFUN_WARNING, result[5] == maxfun)', 'C10')])
 
@@ -221,14 +231,15 @@ def build(repo):
                loops={'for:i#0': [('columns 0..i-1 of the returned Jacobian have been divided by their scale, once, in order:: '
                                    'not isnone(jacmin) and jacmin == UNSC(EJ(G.bestjac), i_) and n >= 0', 'C11')],
                       'while#0': ['!nodefault:: True', 'nf == G.calls', 'nx == G.pts', '0 <= nx', 'nx <= nf', 'nf <= maxfun',
-                          'maxfun == G.maxfun', 'not G.pending', 'nruns == G.restarts + 1', 'last_successful_run >= 0', 'G.offered == G.lastk',
+                          'maxfun == G.maxfun', 'not G.pending', 'nruns == G.restarts + 1', 'last_successful_run >= 0', 'G.offered == G.lastk', 'G.rows >= 0',
                           'last_successful_run <= nruns', 'flag_ok(exit_info)',
                           ('best-so-far tuple is one whole entry:: xmin == EX(G.best) and rmin == ER(G.best) and objmin == EO(G.best) and '
                            'nsamples_min == ENS(G.best) and xmin_eval_num == EEN(G.best)', 'C03'),
                           ('Jacobian kept with its own evaluation numbers:: isnone(jacmin) or (jacmin == EJ(G.bestjac) and jacmin_eval_nums == EJN(G.bestjac))', 'C11'),
                           ('MAXFUN => nf == maxfun:: implies(exit_info.flag == EXIT_MAXFUN_WARNING, nf == maxfun)', 'C10')]},
                modifies=['G.*', 'params[*]'], result='unk',
-               msg_asserts={MAXRESTART_MSG: [('that many runs were performed:: nruns >= params("restarts.max_unsuccessful_restarts")', 'C10')]},
+               msg_asserts={MAXRESTART_MSG: [('that many runs were performed:: nruns >= params("restarts.max_unsuccessful_restarts")', 'C10'),
+                                             ('(f) a success flag is attached only to a finite objective:: G.objfinite', 'C10')]},
                ensures=[('soln.x / resid / obj / xmin_eval_num are one whole returned entry:: implies(result.flag != EXIT_INPUT_ERROR, result.x == RS(EX(G.best)) and '
                          'result.resid == ER(G.best) and result.obj == EO(G.best) and result.xmin_eval_num == EEN(G.best))', 'C03'),
                         ('soln.jacobian is the Jacobian of that pair, un-scaled column by column exactly when scaling is on:: '
